@@ -146,7 +146,9 @@ impl<'a> Iterator for IndexedStringLineIterator<'a> {
     type Item = IndexedStringLine<'a>;
 
     fn next(&mut self) -> Option<Self::Item> {
-        if self.byte_offset >= self.source.bytes().len() {
+        // A text that is empty or ends with a newline has a last, empty line: positions there are valid
+        // error positions (unexpected end of input).
+        if self.byte_offset > self.source.bytes().len() {
             return None;
         }
         let next_offset = self.source[self.byte_offset..]
@@ -184,9 +186,9 @@ impl PrettyParseError {
     /// The `source_file` parameter is used to print the error with the same format `rustc` does.
     pub fn from_parse_error(err: &ParseError, text: &str, source_file: Option<&str>) -> Self {
         let target_line = IndexedStringLineIterator::new(text)
-            .find(|l| l.start_offset <= err.position && l.end_offset >= err.position)
+            .find(|l| l.start_offset <= err.position && l.end_offset > err.position)
             .unwrap_or(IndexedStringLine {
-                // An empty text has no lines at all: report the error on an empty first line.
+                // Only for a position beyond the end of the text: report it on an empty first line.
                 s: "",
                 lineno: 0,
                 start_offset: 0,
@@ -197,7 +199,8 @@ impl PrettyParseError {
             .char_indices()
             .map(|(cp, _c)| cp)
             .position(|cp| cp == err.position - target_line.start_offset)
-            .unwrap_or(0);
+            // Not the start of a character of the line: the position is at the end of the line.
+            .unwrap_or_else(|| target_line.s.chars().count());
         let position = if let Some(f) = source_file {
             format!(
                 "{}:{:?}:{:?}",
